@@ -8,7 +8,8 @@ CLAIMS = {
  "C20": dict(
    engine="tiered+qcache",
    technique="Lean 4 proof (invariant by induction over all op sequences) + differential correspondence model vs real code",
-   text="Theorems C20_doc_cache_bound, C20_hot_tier_bound, C20_query_cache_bound: for every operation sequence "
+   text="Theorems C20_doc_cache_bound, C20_hot_tier_bound, C20_query_cache_bound (plus C20_doc_cache_ids_unique, "
+        "C20_query_cache_keys_unique: one entry per id / key, so the bounds count distinct documents / queries): for every operation sequence "
         "(any length, any oracle inputs) the Lean models of VectorCache/LruIndex/cache strategies, HotTier+TieredEngine "
         "insert/drain and QueryHashCache stay within capacity / hard limit. The models are tied to the current source on "
         "every run by running the same op histories through the real TieredEngine/QueryHashCache and the compiled model "
